@@ -672,23 +672,31 @@ class DefaultModelInputConverter(ModelInputConverter):
     """
     if not self._converts_to_parameter:
       return None
-    elif not np.isfinite(value):
+    elif np.isnan(value):
+      # NaN is how `convert()` imputes a missing parameter.
       return None
     elif self.parameter_config.type == pyvizier.ParameterType.DOUBLE:
       # Input parameter was DOUBLE. Output is also DOUBLE.
       if self._should_clip:
+        # NOTE: `value` is +-inf if unscaling a (finite) out-of-range feature
+        # overflowed; it is then truncated to the bound like any other value.
         value = np.clip(
             value,
             np.float64(self._parameter_config.bounds[0]),
             np.float64(self._parameter_config.bounds[1]),
         )
+      elif not np.isfinite(value):
+        return None
       return pyvizier.ParameterValue(float(value))
     elif self.output_spec.type == NumpyArraySpecType.CONTINUOUS:
       # The parameter config is originally discrete, but continuified.
-      # Round to the closest number.
+      # Round to the closest number. (+-inf rounds to the closest end.)
+      feasible_values = np.asarray(
+          self.parameter_config.feasible_values, dtype=self.dtype
+      )
       diffs = np.abs(
-          np.asarray(self.parameter_config.feasible_values, dtype=self.dtype)
-          - value
+          feasible_values
+          - np.clip(value, feasible_values[0], feasible_values[-1])
       )
 
       idx = np.argmin(diffs)
